@@ -19,6 +19,7 @@ GEN = {
 # property id -> 'module:function' returning (ok, info); called with no arguments
 CUSTOM = {
     'C07': 'props.t_C07:generate_for_make',
+    'C17': 'props.t_C17o:setup_generate',
     'C18': 'props.t_C18:setup_generate',
     'C20': 'props.t_C20:setup_generate',
 }
